@@ -1,4 +1,5 @@
 import FV.Proofs.Strop
+import FV.Proofs.StropStog
 /-
   C15 — Grid orthogon decomposition finds exactly the single-trunk decompositions.
 
@@ -210,6 +211,80 @@ theorem decomposition_area (zero : α) (vs : List (α × α)) (cands : List (Lis
 
 end area_decomposition
 
+/-! ### loaded as a module: recognised by `create_stog`, trunk first -/
+
+/-- the trunk of every offered instance is a maximal all-ones rectangle (no full line of ones abuts it).  This is
+why no branch can take over as trunk in `create_stog`, whatever the areas are. -/
+theorem instance_trunk_maximal (m : Grid) (insts : List Instance) (h : strop m = some insts) (I : Instance)
+    (hI : I ∈ insts) : Maximal m I.trunk := by
+  unfold strop at h
+  split at h
+  · rename_i hwf
+    cases h
+    obtain ⟨T, hT, hmk⟩ := (mem_instances m I).1 hI
+    rw [(mkInstance_some m T I hmk).2.1]
+    exact potentialTrunk_maximal m hwf T hT
+  · cases h
+
+section recognised
+variable {α : Type} [Field α] [LinearOrder α] [IsStrictOrderedRing α]
+
+/-- **rects_recognised** — for a well-formed grid, coordinate lists whose every cell side exceeds `2ε` with `ε > 0`
+(`CoordsOK`: `X` ascending = `x_coords`, `Y` descending = `y_coords`; row 0 is the top row) and `εA ≥ 0`: the list
+`I.loaded X Y` (the `[cx, cy, w, h]` of `rectangles()`, trunk first, turned into `Rectangle`s) makes `create_stog`
+answer `True`; the list it leaves behind is the same list in the same order (the strop trunk stays at the head —
+unconditionally, see `instance_trunk_maximal`), the head carries TRUNK and every branch carries the role of the
+side it is filed under: north = rows above the trunk = larger `y`, south, east = columns to the right, west.
+`ε > 0` is necessary: `almost_eq` is a strict comparison, with `ε = 0` no side is ever recognised. -/
+theorem rects_recognised (m : Grid) (insts : List Instance) (h : strop m = some insts) (I : Instance) (hI : I ∈ insts)
+    (ε εA : α) (X Y : ℕ → α) (hco : CoordsOK ε X Y m.nrows m.ncols) (hA : 0 ≤ εA) :
+    ∃ out, Stog.createStog ε εA (I.loaded X Y) = some (true, out) ∧
+      out.map Stog.eraseLoc = I.loaded X Y ∧
+      out.map (·.loc) = Loc.trunk :: I.sides := by
+  unfold strop at h
+  split at h
+  · rename_i hwf
+    cases h
+    obtain ⟨T, hT, hmk⟩ := (mem_instances m I).1 hI
+    exact instance_recognised m hwf T hT I hmk hco hA
+  · cases h
+
+/-- the same for every answer `strop_decomposition` can give (`toRect` = the `Rectangle` the loader builds from
+`[cx, cy, w, h]`): recognised, first rectangle = TRUNK, order kept. -/
+theorem decomposition_recognised (zero : α) (vs : List (α × α)) (cands : List (List (α × α × α × α)))
+    (h : stropDecomposition zero vs = some cands) (c : List (α × α × α × α)) (hc : c ∈ cands) (ε εA : α)
+    (hco : CoordsOK ε (fun j => (gridOfVertices vs).1.getD j zero) (fun i => (gridOfVertices vs).2.1.getD i zero)
+      (gridOfVertices vs).2.2.nrows (gridOfVertices vs).2.2.ncols) (hA : 0 ≤ εA) :
+    ∃ out t rest, Stog.createStog ε εA (c.map toRect) = some (true, out) ∧ out = t :: rest ∧ t.loc = Loc.trunk ∧
+      out.map Stog.eraseLoc = c.map toRect ∧ ∀ r ∈ rest, r.loc ≠ Loc.nopoly ∧ r.loc ≠ Loc.trunk := by
+  unfold stropDecomposition at h
+  simp only at h
+  cases hst : strop (gridOfVertices vs).2.2 with
+  | none => simp [hst] at h
+  | some insts =>
+    simp only [hst] at h
+    split at h
+    · cases h
+    · cases h
+      obtain ⟨I, hI, rfl⟩ := List.mem_map.1 hc
+      obtain ⟨out, e1, e2, e3⟩ := rects_recognised _ insts hst I hI ε εA _ _ hco hA
+      have hload : (I.rectangles.map (coordRect (fun j => (gridOfVertices vs).1.getD j zero)
+          (fun i => (gridOfVertices vs).2.1.getD i zero))).map toRect =
+          I.loaded (fun j => (gridOfVertices vs).1.getD j zero) (fun i => (gridOfVertices vs).2.1.getD i zero) := by
+        simp only [Instance.loaded, List.map_map]; rfl
+      rw [hload]
+      cases out with
+      | nil => simp at e3
+      | cons t rest =>
+        simp only [List.map_cons, List.cons.injEq] at e3
+        refine ⟨_, t, rest, e1, rfl, e3.1, e2, ?_⟩
+        intro r hr
+        have : r.loc ∈ I.sides := by rw [← e3.2]; exact List.mem_map_of_mem hr
+        simp only [Instance.sides, List.mem_append, List.mem_map] at this
+        rcases this with ((⟨_, _, e⟩ | ⟨_, _, e⟩) | ⟨_, _, e⟩) | ⟨_, _, e⟩ <;> rw [← e] <;> simp
+
+end recognised
+
 /-! ### non-vacuity: concrete grids -/
 
 /-- the plus shape: two decompositions (vertical and horizontal trunk). -/
@@ -226,6 +301,14 @@ example : ∃ T bs, Decomposes plus T bs := isStrop_sound plus (by decide) (by d
 example : ¬ ∃ T bs, Decomposes stairs T bs := fun h => by
   have := isStrop_complete stairs (by decide) h
   revert this; decide +kernel
+/-- unit coordinates on the 3×3 grid with `ε = 1/8` meet `CoordsOK`. -/
+example : CoordsOK (1/8 : ℚ) (fun j => (j : ℚ)) (fun i => 3 - (i : ℚ)) 3 3 :=
+  ⟨by norm_num, fun j _ => by push_cast; norm_num, fun i _ => by push_cast; norm_num⟩
+/-- … and the plus shape loaded that way is recognised with the roles in `rectangles()` order. -/
+example : ((instances plus).map fun I =>
+    (Stog.createStog (1/8 : ℚ) (1/4) (I.loaded (fun j => (j : ℚ)) (fun i => 3 - (i : ℚ)))).map
+      fun p => (p.1, p.2.map (·.loc))) =
+    [some (true, [.trunk, .east, .west]), some (true, [.trunk, .north, .south])] := by decide +kernel
 /-- the in-place order of the two pruning passes matters on this grid: four row spans survive. -/
 example : (trunksMatrix stairs).length = 4 := by decide +kernel
 
